@@ -5,7 +5,7 @@ import z3
 from symtrace import engine as E, harness as H, oblig as O
 from . import catalogue as CAT
 from . import common as C
-from .catjob import Job
+from .catjob import lookup, Job
 from .c01 import is_heavy
 
 PID = "C04"
@@ -36,8 +36,8 @@ def jobs(tier):
 
 
 def run_job(env, spec):
-    entry = CAT.by_name(spec["cfg"]["n"], "thorough")[spec["entry"]]
-    job = Job(PID, env, spec, entry)
+    entry = lookup(spec)
+    job = Job(spec.get("pid", PID), env, spec, entry, spec.get("catalogue", "checks.catalogue"))
     job.cfg["want_ref"] = False
     twin_done = False
     for t in job.explore():
